@@ -58,7 +58,9 @@ func c06Bodies() []c06Body {
 			return Func(nil, false, LocalFunc("mid", Func(nil, false, Return(CallN("thelper")))), Emit(Str("th-got"), CallN("mid")), Return(Str("th-ret")))
 		}, func() []Stat { return []Stat{LocalFunc("thelper", Func(nil, false, Return(cy(Str("tail")))))} }},
 		{"outertail", func() *FuncExpr { return Func(nil, true, Return(cy(Str("outer-tail"), Vararg()))) }, nil},
-		{"errstr", func() *FuncExpr { return Func(nil, false, Emit(Str("es-got"), cy(Num(1))), CallS(Name("error"), Str("boom"))) }, nil},
+		{"errstr", func() *FuncExpr {
+			return Func(nil, false, Emit(Str("es-got"), cy(Num(1))), CallS(Name("error"), Str("boom")))
+		}, nil},
 		{"errtab", func() *FuncExpr {
 			return Func(nil, false, CallS(Name("error"), TableE(NamedField("code", Num(7)))))
 		}, nil},
